@@ -699,6 +699,7 @@ package uhppote
 //@   modifies evt.connected
 //@   ensures connected: err == nil ==> evt.connected == old(evt.connected) + 1 && evt.errors == old(evt.errors) && evt.events == old(evt.events)
 //@   ensures failed:    err != nil ==> evt.connected == old(evt.connected)
+//@   ensures stop:      (err == nil ==> chancloses() == 1) && (err != nil ==> chancloses() == 0)
 
 // the driver's Listen: starts the receive loop (a goroutine: outside the sequential subset) and returns
 //@ func driver.Listen
@@ -964,11 +965,30 @@ package uhppote
 //@                    time.exists(sdtCivil(e.SystemDate, e.SystemTime), time.Local) ==> sdtSame(dt, e.SystemDate, e.SystemTime)
 
 
+// ut0311.Listen: refuses port 0; one UDP socket bound to the listen address, left open; two goroutines - the
+// signal waiter, which closes the socket exactly once when signalled, and the receive loop, which closes `done`
+// exactly once when it ends; nothing is opened or started when it fails.
+//@ func (*ut0311).Listen
+//@   params u, signal, done, callback
+//@   returns err
+//@   requires driver: u != nil
+//@   modifies sock.opened, sock.kind, sock.lip, sock.lport, sock.rip, sock.rport, sock.dialdl, sock.deadline, sock.rset, sock.wset, go.started
+//@   ensures port0:  u.listenAddr.port == 0 ==> err != nil
+//@   ensures bound:  err == nil ==> sock.opened == old(sock.opened) + 1 && sock.kind == 1 && sock.lport == u.listenAddr.port &&
+//@                     (u.listenAddr.ip.kind == 1 ==> sock.lip == u.listenAddr.ip.bits) && go.started == old(go.started) + 2
+//@   ensures failed: err != nil ==> sock.opened == old(sock.opened) && go.started == old(go.started)
+
+//@ func (*ut0311).Listen$1
+//@   requires env: c != nil
+//@   modifies closed, sock.closed
+//@   ensures once: sock.closed == old(sock.closed) + 1 && closed
+
 // the receive loop of the event listener (goroutine body): one buffer that can hold an over-length datagram,
-// one callback per datagram read without error
+// one callback per datagram read without error; `done` is closed exactly once, when the loop ends
 //@ func (*ut0311).Listen$2
 //@   requires env: u != nil && c != nil
 //@   modifies sock.reads, sock.unguarded, sock.pending
+//@   ensures done: chancloses() == 1
 //@   loop 1
 //@     invariant buf: len(m) > 64 && fresh(m)
 
